@@ -360,7 +360,7 @@ CALL = {
     ("Sequencer", "notify_listeners", "msg_type"): lambda: [5],
     ("Sequencer", "stop_Note", "note"): lambda: [Note("C", 4)],
     ("Sequencer", "control_change", "value"): lambda: [100],
-    ("Sequencer", "play_Composition", "channels"): lambda: [[1, 2, 3], None, OMIT],
+    ("Sequencer", "play_Composition", "channels"): lambda: [OMIT, [1, 2, 3], None],
     ("StringTuning", "find_chord_fingering", "notes"): lambda: [["C", "E", "G"], NoteContainer(["C", "E", "G"])],
 }
 
